@@ -261,3 +261,38 @@ def args_small(t: 'Term'):
                     not t.fun.fun.is_comb()))
     ensures(implies(nargs_of(t) == 3, args_of(t) == [t.fun.fun.arg, t.fun.arg, t.arg] and t.fun.is_comb() and
                     t.fun.fun.is_comb() and not t.fun.fun.fun.is_comb()))
+
+
+@lemma
+def app_shapes(t: 'Term'):
+    """Spines of length 1, 2 and 3, spelled out."""
+    if t.is_comb():
+        if t.fun.is_comb():
+            if t.fun.fun.is_comb():
+                if t.fun.fun.fun.is_comb():
+                    nargs_nonneg(t.fun.fun.fun.fun)
+                    assert nargs_of(t) >= 4
+                else:
+                    assert nargs_of(t) == 3 and head_of(t) == t.fun.fun.fun
+            else:
+                assert nargs_of(t) == 2 and head_of(t) == t.fun.fun
+        else:
+            assert nargs_of(t) == 1 and head_of(t) == t.fun
+    else:
+        assert nargs_of(t) == 0
+    ensures(implies(nargs_of(t) == 1, t.is_comb() and head_of(t) == t.fun and not t.fun.is_comb()))
+    ensures(implies(nargs_of(t) == 2, t.is_comb() and t.fun.is_comb() and head_of(t) == t.fun.fun and
+                    not t.fun.fun.is_comb()))
+    ensures(implies(nargs_of(t) == 3, t.is_comb() and t.fun.is_comb() and t.fun.fun.is_comb() and
+                    head_of(t) == t.fun.fun.fun and not t.fun.fun.fun.is_comb()))
+    ensures(implies(t.is_comb() and not t.fun.is_comb(), nargs_of(t) == 1))
+    ensures(implies(t.is_comb() and t.fun.is_comb() and not t.fun.fun.is_comb(), nargs_of(t) == 2))
+    ensures(nargs_of(t) >= 0)
+
+
+@lemma
+def nargs_nonneg(t: 'Term'):
+    decreases(t)
+    if t.is_comb():
+        nargs_nonneg(t.fun)
+    ensures(nargs_of(t) >= 0)
